@@ -211,6 +211,14 @@ def _gen_sctp_send():
     g = _need(r"const\s+MIN_FAST_RETRANSMIT_COOLDOWN_MS\s*:\s*u64\s*=\s*(\d+)\s*;", b, "fast retransmit cooldown")
     m.raw("Definition MIN_FAST_RETRANSMIT_COOLDOWN_MS : Z := %s." % g.group(1), "apply_sack: MIN_FAST_RETRANSMIT_COOLDOWN_MS", SCTP)
     _need(r"\.filter\(\|&&tsn\|\s*\(tsn\.wrapping_sub\(cumulative_tsn_ack\)\s+as\s+i32\)\s*<=\s*0\)", b, "apply_sack cumulative removal test")
+    g = _need(r"let\s+oldest_tsn\s*=\s*match\s*\(sent_queue\.keys\(\)\.next\(\),\s*sent_queue\.keys\(\)\.next_back\(\)\)\s*\{\s*"
+              r"\(Some\(&first\),\s*Some\(&last\)\)\s*if\s*\(last\.wrapping_sub\(first\)\s+as\s+i32\)\s*<\s*0\s*=>\s*sent_queue\s*"
+              r"\.range\((0x[0-9a-fA-F_]+)u32\.\.\)\s*\.next\(\)\s*\.map\(\|\(&tsn,\s*_\)\|\s*tsn\)\s*\.or\(Some\(first\)\),\s*"
+              r"\(Some\(&first\),\s*_\)\s*=>\s*Some\(first\),\s*_\s*=>\s*None,\s*\};\s*"
+              r"if\s+let\s+Some\(lowest_tsn\)\s*=\s*oldest_tsn\s*&&\s*\(cumulative_tsn_ack\.wrapping_sub\(lowest_tsn\.wrapping_sub\(1\)\)\s+as\s+i32\)\s*<\s*0",
+              b, "apply_sack late-SACK filter (oldest TSN in serial order)")
+    m.raw("Definition OLDEST_UPPER_HALF : Z := %d." % int(g.group(1).replace("_", ""), 16), "apply_sack: start of the upper half of the TSN space", SCTP)
+    _need(r"if\s*\(max_reported\.wrapping_sub\(lowest_tsn\)\s+as\s+i32\)\s*<\s*0\s*\{\s*return\s+SackOutcome::default\(\);", b, "apply_sack late-SACK second test")
     _need(r"if\s+record\.missing_reports\s*>=\s*DUP_THRESH\s*&&\s*!record\.abandoned\s*&&\s*can_fast_retransmit\s*\{", b, "apply_sack fast retransmit test")
     _need(r"record\.payload\s*=\s*Bytes::new\(\)\s*;", b, "apply_sack gap-ack payload drop")
 
